@@ -3,10 +3,14 @@
 (VERIF_REPO), updates meta.json (caught_by / matrix entry for the own check / history) and restores evidence + Generated afterwards."""
 import json, os, subprocess, sys, time
 ROOT = os.path.dirname(os.path.dirname(os.path.abspath(__file__)))
-for sid in sys.argv[1:]:
+other = None
+args = sys.argv[1:]
+if args and args[0].startswith("--check="):
+    other = args[0][8:]; args = args[1:]      # run ANOTHER property's check against the seed and record it in the matrix
+for sid in args:
     d = os.path.join(ROOT, "seeded", sid)
     meta = json.load(open(os.path.join(d, "meta.json")))
-    pid = meta["property"]
+    pid = other or meta["property"]
     wt = "/tmp/rs-" + sid
     subprocess.run(["git", "-C", "/repo", "worktree", "remove", "--force", wt], capture_output=True)
     subprocess.run(["git", "-C", "/repo", "worktree", "add", "-q", "--detach", wt, "HEAD"], check=True)
@@ -23,6 +27,8 @@ for sid in sys.argv[1:]:
                                                "verdict": verdict, "line": (done[-1] if done else "")[:200]})
         meta.setdefault("matrix", {})[pid] = verdict
         cb = set(meta.get("caught_by", []))
+        if other:
+            pass
         if verdict.startswith("VIOLATION"): cb.add(pid + " quick")
         else: cb.discard(pid + " quick")
         meta["caught_by"] = sorted(cb)
